@@ -73,6 +73,17 @@ def run_ortho(spec, res):
         res['observations'] += 1
         if np.abs(a - b).max() > 1e-10:
             common.add_violation(res, "conjugation symmetry", {"s": s, "l": l, "m": m})
+    # the poles themselves: finite, and continuous with their neighbourhood
+    thp = np.array([0.0, 1e-7, np.pi - 1e-7, np.pi])
+    php = np.full(4, 0.3)
+    for l, m in lm:
+        with np.errstate(all='ignore'):
+            v = maths.sYlm(s, l, m, thp, php)
+        res['observations'] += 1
+        if not np.all(np.isfinite(v)) or abs(v[0] - v[1]) > 1e-5 or abs(v[3] - v[2]) > 1e-5:
+            common.add_violation(res, "sYlm not finite / not continuous at a pole",
+                                 {"s": s, "l": l, "m": m, "values": [complex(x) for x in v]})
+            break
     if s == 0:
         for l, m in lm:
             a = maths.sYlm(0, l, m, th, ph)
@@ -158,6 +169,15 @@ def run_interp(spec, res):
             common.add_violation(res, f"interpolate not exact at nodes ({method})", {})
         else:
             res['nontrivial'].append(['nodes', method] + tagbase)
+    # targets that are not C-contiguous (transposed views, Fortran order)
+    Tn = [rng.uniform(lo[i], hi[i], (5, 3)) for i in range(3)]
+    Tn = [Tn[0].T, np.asfortranarray(Tn[1].T), Tn[2].T.copy()]
+    res['observations'] += 1
+    gotn = numerical.interpolate(val, tuple(ax), tuple(Tn), method='linear')
+    if gotn.shape != (3, 5) or np.abs(gotn - tri(*Tn)).max() > 1e-10 * max(np.abs(val).max(), 1):
+        common.add_violation(res, "interpolate wrong for non-contiguous target arrays", {})
+    else:
+        res['nontrivial'].append(['non-contiguous targets'] + tagbase)
     # trilinear exactness at random interior points, arbitrary target shape
     T = [rng.uniform(lo[i], hi[i], (3, 5)) for i in range(3)]
     res['observations'] += 1
@@ -205,7 +225,8 @@ def run_psi4(spec, res):
     l0, m0 = spec['l0'], spec['m0']
     centre = tuple(rng.uniform(-0.3, 0.3, 3))
     A = (rng.uniform(0.5, 2.0) * np.exp(1j * rng.uniform(0, 2 * np.pi)))
-    radii = [float(rng.uniform(0.8, 1.3)), float(rng.uniform(1.4, 1.8))]
+    radii = [float(rng.uniform(1.4, 1.8)), float(rng.uniform(0.8, 1.05)),
+             float(rng.uniform(1.1, 1.35))]          # deliberately not ascending
     f = lambda r: r ** 2 * np.exp(-0.5 * r ** 2) + 0.3
     L = 5.0
     errs = []
